@@ -70,7 +70,13 @@ func (p *perturb) yield(site string) {
 	switch p.mode {
 	case 0: // delay writers inside the registration window (long enough for another commit to complete), let readers run
 		if site == "orc.committs.after-next" {
-			time.Sleep(8 * d)
+			// most committers pass quickly, a few stay long enough for a later
+			// committer to register, apply and finish meanwhile
+			if r < 12 {
+				time.Sleep(5*time.Millisecond + 60*d)
+			} else {
+				time.Sleep(d / 2)
+			}
 			return
 		}
 		if site == "wm.begin.after-last" || site == "wm.add.after-window" {
